@@ -61,7 +61,7 @@ def roundtrip(ctx, case, cfgd, cfg, T, obj, origin, expect=None, inp=None):
     """obj is a library value; dump it, parse the dump, compare."""
     top = case["top"]
     try:
-        v1 = lib.norm(obj, top, strict=origin != "constructed")
+        v1 = lib.norm(obj, top, strict=origin not in ("constructed", "default"))
     except lib.NormError as e:
         ctx.violation("norm", "unexpected-value-kind", case_detail(case, cfg=cfgd, error=str(e), origin=origin))
         return
@@ -98,6 +98,16 @@ def roundtrip(ctx, case, cfgd, cfg, T, obj, origin, expect=None, inp=None):
         viol("construct", "constructed-value-differs-from-requested", expected=expect)
         return
     if bad is None:
+        # the library's own notion of equality must agree (the normalised comparison above does not tell an integer
+        # from a one-byte string in a bit-field, for instance)
+        if not model.has_nan(v1):
+            try:
+                same = r2[1] == obj
+            except Exception as e:  # noqa: BLE001
+                same = lib.exc_sig(e)
+            ctx.event("library_equality_compared")
+            if same is not True:
+                viol("equality", "reparsed-value-is-not-equal-to-the-dumped-one", dump=d, got=repr(same))
         return
     sig = diagnose_roundtrip(case, cfgd, cfg, T, v1, d, r2)
     viol(bad[0], sig, dump=d, got=bad[1])
@@ -117,6 +127,9 @@ def int_leaves(node, v, path=()):
         yield path, size * 8, signed, node
     elif k == "ptr":
         yield path, None, False, node
+    elif k == "leb" and node["t"] == "uleb128":
+        # not fixed-width, but unsigned: a negative number has no encoding and must not be written as something else
+        yield path, "uleb", False, node
     elif k == "array":
         if node["elem"]["k"] in ("char", "wchar"):
             return
@@ -146,7 +159,9 @@ def overflow(ctx, case, cfgd, cfg, T, v, rng):
     for path, bits, signed, leaf in rng.sample(leaves, min(len(leaves), 3 if not ctx.thorough else 6)):
         if bits is None:
             bits = ALL_INTS[cfgd["ptr"]][0] * 8
-        if signed:
+        if bits == "uleb":
+            cands = [-1, -2, -64, -128, -(1 << 70)]
+        elif signed:
             cands = [1 << (bits - 1), -(1 << (bits - 1)) - 1, 1 << bits]
         else:
             cands = [1 << bits, -1, (1 << bits) + 5]
@@ -202,6 +217,23 @@ def check_case(ctx, case, rng):
                 roundtrip(ctx, case, cfgd, cfg, T, r[1], "parsed", inp=inp)
             else:
                 ctx.event("parse_error")
+        # (b') the default-constructed value
+        # (the default of an array sized by an expression is empty, which is a value only if the expression is 0
+        # over the other defaults: judged when the model's own round trip of the default value closes)
+        try:
+            dv = model.default_value(top, cfg)
+            db, _m = model.dump(top, dv, cfg)
+            pv, pend = model.parse(top, db, 0, cfg)
+            closes = pend == len(db) and lib.nan_clean(model.clean(pv)) == lib.nan_clean(model.clean(dv))
+        except Exception:  # noqa: BLE001
+            closes = False
+        if closes:
+            try:
+                roundtrip(ctx, case, cfgd, cfg, T, T(), "default", expect=lib.nan_clean(model.clean(dv)) if not gen.has_union(top) else None)
+            except NotImplementedError:
+                ctx.event("default_of_dynamic_union_refused")
+        else:
+            ctx.event("default_value_not_self_consistent")
         # (b) values constructed directly, (c) overflow
         for _ in range(2):
             try:
